@@ -2,6 +2,7 @@ package sym
 
 import (
 	"fmt"
+	"os"
 	"sort"
 	"sync"
 	"time"
@@ -50,6 +51,8 @@ type HarnessResult struct {
 	Wall         time.Duration
 	MaxQueryMs   int64
 	PathLimit    bool
+	Supports     int
+	SweepMs      int64
 }
 
 type job struct{ prefix []Decision }
@@ -74,6 +77,22 @@ func Explore(p *Program, cfg *HarnessCfg) *HarnessResult {
 		workers = 1
 	}
 	var wg sync.WaitGroup
+	if os.Getenv("GOSMT_PROGRESS") != "" {
+		stop := make(chan bool)
+		defer close(stop)
+		go func() {
+			for {
+				select {
+				case <-stop:
+					return
+				case <-time.After(5 * time.Second):
+					mu.Lock()
+					fmt.Fprintf(os.Stderr, "[progress %s] paths=%d queue=%d active=%d unsat=%d sat=%d triv=%d incon=%d\n", cfg.Name, paths, len(queue), active, res.NUnsat, res.NSat, res.NTrivial, len(res.Inconclusive))
+					mu.Unlock()
+				}
+			}
+		}()
+	}
 	for w := 0; w < workers; w++ {
 		wg.Add(1)
 		go func() {
@@ -132,6 +151,8 @@ func Explore(p *Program, cfg *HarnessCfg) *HarnessResult {
 
 func (r *HarnessResult) absorb(e *Exec) {
 	r.Instrs += e.Instrs
+	r.Supports += e.SweepSupports
+	r.SweepMs += e.SweepMs
 	r.FeasQueries += e.feasQ
 	if e.endWhy == "infeasible" || e.endWhy == "assumption false" {
 		r.DeadPaths++
